@@ -32,7 +32,10 @@ def _same(rec) -> bool:
     return ra == rb and a["len"] == b["len"] and a["err"] == b["err"] and a["pw"] == b["pw"] and not rec["memdiff"]
 
 
-def compare_case(eh, vh: Vh, regs, mem, n: int = 1, hidden=None) -> Dict[str, Any]:
+BLOCK = 1 << 40      # state-seed flag: block length above 256 (only the SET of external addresses written is compared, see run())
+
+
+def compare_case(eh, vh: Vh, regs, mem, n: int = 1, hidden=None, addr_only: bool = False) -> Dict[str, Any]:
     p = eh.run(regs, mem, n, hashed=True, hidden=hidden)
     r = vh.call("exec.run", regs=regs, mem=mem, n=n, hashed=True, **({"hidden": hidden} if hidden else {}))
     ps, rs = p["steps"], r["steps"]
@@ -52,6 +55,10 @@ def compare_case(eh, vh: Vh, regs, mem, n: int = 1, hidden=None) -> Dict[str, An
     from exec_harness import hash_byte
     memdiff = [[a_, pmem[a_] if pmem[a_] is not None else hash_byte(a_), rmem[a_]] for a_ in addrs
                if (pmem[a_] if pmem[a_] is not None else hash_byte(a_)) != rmem[a_]]
+    if addr_only:
+        wp = {w[0] for s_ in ps for w in s_["writes"] if w[0] < 0x100000}
+        wr = {w[0] for s_ in rs for w in s_["writes"] if w[0] < 0x100000}
+        memdiff = [[a_, 1, 0] for a_ in sorted(wp - wr)] + [[a_, 0, 1] for a_ in sorted(wr - wp)]
     rec.update({"py": {"regs": a["regs"], "len": a["len"], "err": 1 if a["err"] else 0, "pw": _norm_power(a["power"])},
                 "rs": {"regs": b["regs"], "len": b["len"], "err": 1 if b["err"] else 0, "pw": _norm_power(b["power"])},
                 "memdiff": memdiff[:8], "nwrites": len(addrs), "py_err": a["err"] or "", "rs_err": b["err"] or ""})
@@ -69,11 +76,15 @@ def _job(arg):
     try:
         for (rid, enc, st_seed) in items:
             rnd = random.Random(abs(st_seed))
-            st = en.state_for(enc, rnd)
+            if st_seed >= BLOCK:
+                from checks import c04
+                st = c04.make_state(en, enc, st_seed - BLOCK, "block")
+            else:
+                st = en.state_for(enc, rnd)
             if st_seed < 0:
                 st["regs"]["F"] |= 0xA4          # bits 2-7 of F set (they can get there through POPU F / POPS F / RETI)
             regs, mem = en.build_case(enc, st)
-            rec = compare_case(eh, vh, regs, mem)
+            rec = compare_case(eh, vh, regs, mem, addr_only=st_seed >= BLOCK)
             rec.update({"id": rid, "b": list(enc) + [0] * (8 - len(enc)), "n": len(enc), "seed": st_seed})
             recs.append(rec)
     finally:
@@ -111,7 +122,7 @@ def _shape(clause: str, rec) -> str:
     b = rec["b"]
     k = 1 if b[0] in PRE_SET else 0
     op = b[k]
-    return f"op{op:02X}" + (":absbits" if _abs_hi(b, k, op) else "") + (":fhigh" if rec.get("seed", 0) < 0 else "")
+    return f"op{op:02X}" + (":absbits" if _abs_hi(b, k, op) else "") + (":fhigh" if rec.get("seed", 0) < 0 else "") + (":block" if rec.get("seed", 0) >= BLOCK else "")
 
 
 def programs(cr: CheckRun, nprog: int, nsteps: int) -> None:
@@ -184,6 +195,15 @@ def run(cr: CheckRun) -> None:
         if en.opcode_of(e) in (0x2E, 0x4F, 0xFE):          # instructions that store F: once more with the upper bits of F set
             rid += 1
             items.append((rid, e, -rnd.getrandbits(30) - 1))
+    # block lengths that need both bytes of I, for the block moves with an external operand.  The internal operand then sweeps
+    # the whole internal memory, where the cores are known to differ (C04 finding: the Python core leaves the internal memory at
+    # its ends), so the VALUES moved are not comparable; registers, flags and the set of external addresses written are.
+    from checks import c04
+    blk = [e for e in encs if en.opcode_of(e) in c04.BLOCK_OPS]
+    rnd2 = random.Random(cr.seed + 5)
+    for e in (rnd2.sample(blk, min(len(blk), 64)) if quick else blk):
+        rid += 1
+        items.append((rid, e, BLOCK + rnd.getrandbits(30)))
     nsh = vlib.NCPU * 2
     results = vlib.pmap(_job, [(i, items[i::nsh], cr.seed) for i in range(nsh)])
     cr.mark("pairs")
@@ -223,11 +243,15 @@ def replay(path: str) -> int:
     vh = Vh()
     try:
         if rec["kind"] == "pair":
-            st = en.state_for(bytes(rec["bytes"]), random.Random(abs(rec["seed"])))
+            if rec["seed"] >= BLOCK:
+                from checks import c04
+                st = c04.make_state(en, bytes(rec["bytes"]), rec["seed"] - BLOCK, "block")
+            else:
+                st = en.state_for(bytes(rec["bytes"]), random.Random(abs(rec["seed"])))
             if rec["seed"] < 0:
                 st["regs"]["F"] |= 0xA4
             regs, mem = en.build_case(bytes(rec["bytes"]), st)
-            r = compare_case(eh, vh, regs, mem)
+            r = compare_case(eh, vh, regs, mem, addr_only=rec["seed"] >= BLOCK)
         else:
             r = compare_case(eh, vh, rec["regs"], rec["mem"], n=rec["n"])
     finally:
